@@ -123,7 +123,9 @@ class Check(BaseCheck):
             f = rng.normal(size=n); g = rng.normal(size=n)
             lhs = float(f @ (a @ g))
             rhs = corr_fem.dirichlet(kind, v, t, f, g)
-            if abs(lhs - rhs) > 1e-7 * max(abs(lhs), abs(rhs), scale):
+            el = np.concatenate([np.linalg.norm(v[t[:, i]] - v[t[:, j]], axis=1) for i in range(t.shape[1]) for j in range(i)])
+            kappa = max(1.0, 1e-9 * float(el.max() / max(el.min(), 1e-300)) ** 2)          # needle elements of multi-scale meshes: conditioning of both sides
+            if abs(lhs - rhs) > 1e-7 * kappa * max(abs(lhs), abs(rhs), scale):
                 return core.Violation("dirichlet-form", "f·A·g = %.10g but sum of area*grad·grad = %.10g" % (lhs, rhs), case,
                                       observed=lhs, expected=rhs)
         # independence of vertex order / orientation of the elements
